@@ -24,8 +24,9 @@ type globPattern struct {
 type globFlag uint
 
 var typeCbMap = map[string]func(os.FileMode) bool{
-	"dir":     os.FileMode.IsDir,
-	"regular": os.FileMode.IsRegular,
+	"dir": os.FileMode.IsDir,
+	// Symbolic links are considered to be regular files (paths are lstat'ed).
+	"regular": func(m os.FileMode) bool { return m.IsRegular() || m&os.ModeSymlink != 0 },
 }
 
 const (
